@@ -116,6 +116,11 @@ def noLabelNodes (g : Graph) : Bool := g.nodes.all fun x => !(x.2.isLabeled == s
 def allSymbols (g : Graph) : Bool := g.nodes.all fun x => x.2.symbol.isSome
 def supported (g : Graph) : Bool := g.edges.all fun e => supportedLabel e.2.2.2
 
+/-- no bond joins an atom to itself.  RDKit's `AddBond(i, i)` raises on such a bond and the model of the
+    RWMol does not model that refusal: graphs with a self-loop are outside the domain of the property
+    and of `C19.bridge_lossless` (decidable hypothesis, evaluated by the driver on every case) -/
+def noSelfLoops (g : Graph) : Bool := g.nodeIds.all fun u => (g.bond? u u).isNone
+
 /-- every edge `g.edges` reports joins two nodes of `g` (true for every networkx graph) -/
 def edgesClosed (g : Graph) : Bool := g.edges.all fun e => g.nodeIds.contains e.1 && g.nodeIds.contains e.2.1
 
